@@ -166,6 +166,9 @@ class Assembly:
         self.hits_total = {}
         self.includes = []
         self.negctl_skipped = []
+        self.conditions = []
+        self.opaque_marker = None
+        self.cut_texts = []
 
     def emit(self, line, origin):
         self.out.append((line, origin))
@@ -230,10 +233,52 @@ def _count_clauses(block):
     return clauses
 
 
+def _apply_conditionals(lines, repo_root, asm):
+    """//@if path=<file> regex=<re> ... //@else ... //@endif : the contract text may depend on a structural fact of the
+    working tree (e.g. which collection type an alias names) -- never on line numbers.  Inactive lines are blanked."""
+    out = []
+    stack = []   # (active_parent, cond_value, in_else)
+    for no, ln in enumerate(lines, 1):
+        st = ln.strip()
+        if st.startswith('//@if '):
+            toks = _parse_directive(ln)
+            _, kv = _kv(toks[1:])
+            try:
+                txt = open(os.path.join(repo_root, kv['path']), encoding='utf-8').read()
+            except OSError:
+                txt = ''
+            val = re.search(kv['regex'], txt) is not None
+            parent = all(a for a, _, _ in stack) if stack else True
+            stack.append((parent and val, val, False))
+            asm.conditions.append({'line': no, 'path': kv['path'], 'regex': kv['regex'], 'holds': val})
+            out.append('')
+            continue
+        if st.startswith('//@else'):
+            if not stack:
+                raise CutError('template line %d: //@else without //@if' % no)
+            _, val, _ = stack.pop()
+            parent = all(a for a, _, _ in stack) if stack else True
+            stack.append((parent and not val, val, True))
+            out.append('')
+            continue
+        if st.startswith('//@endif'):
+            if not stack:
+                raise CutError('template line %d: //@endif without //@if' % no)
+            stack.pop()
+            out.append('')
+            continue
+        active = all(a for a, _, _ in stack) if stack else True
+        out.append(ln if active else '')
+    if stack:
+        raise CutError('template: //@if without //@endif')
+    return out
+
+
 def process_template(unit, tmpl_path, repo_root):
     with open(tmpl_path, encoding='utf-8') as f:
         lines = f.read().split('\n')
     asm = Assembly(unit, repo_root)
+    lines = _apply_conditionals(lines, repo_root, asm)
     i = 0
     n = len(lines)
     while i < n:
@@ -260,6 +305,11 @@ def process_template(unit, tmpl_path, repo_root):
             for k, l in enumerate(inc_lines):
                 asm.emit(l, ('include', toks[1], k + 1))
             asm.includes.append(inc)
+            i += 1
+            continue
+        if d == 'opaque_consts_here':
+            asm.opaque_marker = len(asm.out)
+            asm.emit('', ('tmpl', i + 1))
             i += 1
             continue
         if d == 'macros':
@@ -295,6 +345,24 @@ def process_template(unit, tmpl_path, repo_root):
             i = j + 1
             continue
         raise CutError('template %s line %d: unknown directive %s' % (tmpl_path, i + 1, d))
+    if asm.opaque_marker is not None:
+        # SCREAMING_CASE identifiers that the cut text uses but nothing declares (e.g. a constant introduced in /repo
+        # after the contracts were written) are declared as opaque constants: no contract mentions them, so their
+        # values cannot matter to any obligation; without this the unit would merely fail to compile (undecided)
+        whole = asm.text()
+        wm = mask(whole)
+        declared = set(mm.group(1) for mm in re.finditer(r'\b(?:const|static)\s+([A-Z][A-Z0-9_]{2,})\b', whole))
+        used = set()
+        for t in asm.cut_texts:
+            tm = mask(t)
+            for mm in re.finditer(r'(?<![A-Za-z0-9_:.])([A-Z][A-Z0-9_]{2,})(?![A-Za-z0-9_!(<:])', t):
+                if tm[mm.start()] == CODE:
+                    used.add(mm.group(1))
+        missing = sorted(used - declared)
+        if missing:
+            decl = 'pub struct VerifOpaqueConst; ' + ' '.join('pub const %s: VerifOpaqueConst = VerifOpaqueConst;' % n for n in missing)
+            asm.out[asm.opaque_marker] = (decl, ('opaque_consts', missing))
+            asm.hits_total['R14.opaque_const:' + '+'.join(missing)] = len(missing)
     return asm
 
 
@@ -666,6 +734,7 @@ def _emit_cut(asm, c, text, inserts, hits, kv):
 
 def _record_cut(asm, c, hits, kv, fname, text):
     import hashlib
+    asm.cut_texts.append(text)
     asm.cuts.append({
         'kind': c.kind, 'name': fname, 'impl': kv.get('impl'), 'where': c.where(),
         'sha256_16_repo_text': c.sha(),
